@@ -17,9 +17,8 @@ Definition pool_effective_n_jobs (mp_none : bool) (cpus : Z) (n_jobs : Z) : resu
 
 (* LokyBackend.effective_n_jobs *)
 Definition loky_effective_n_jobs (mp_none : bool) (cpus : Z) (daemon : bool) (depth : Z) (main_thread : bool) (level : Z) (n_jobs : Z) : result Z :=
-  if (n_jobs =? (0)) then (Raise ValueError) else (if (mp_none || false) then (Ok ((1))) else (if daemon then (Ok ((1))) else (if (negb (main_thread || (level =? (0)))) then (Ok ((1))) else (bind (if (n_jobs <? (0)) then (let n_jobs := (Z.max ((cpus + (1)) + n_jobs) (1)) in
-  Ok n_jobs) else (Ok n_jobs)) (fun n_jobs =>
-  Ok (n_jobs)))))).
+  if (n_jobs =? (0)) then (Raise ValueError) else (if (mp_none || false) then (Ok ((1))) else (if (n_jobs <? (0)) then (let n_jobs := (Z.max ((cpus + (1)) + n_jobs) (1)) in
+  Ok (n_jobs)) else (if daemon then (Ok ((1))) else (if (negb (main_thread || (level =? (0)))) then (Ok ((1))) else (Ok (n_jobs)))))).
 
 (* MultiprocessingBackend.effective_n_jobs *)
 Definition mp_effective_n_jobs (mp_none : bool) (cpus : Z) (daemon : bool) (depth : Z) (main_thread : bool) (level : Z) (n_jobs : Z) : result Z :=
@@ -36,5 +35,5 @@ Definition cpu_count_user (os_cpu_count : Z) (aff : option Z) (cg : option Z) (l
 Definition cpu_count (os_raw : option Z) (aff : option Z) (cg : option Z) (loky_env : option Z) (only_physical_cores : bool) : result Z :=
   let os_cpu_count := (match os_raw with Some c => if c =? 0 then 1 else c | None => 1 end) in
   bind (cpu_count_user os_cpu_count aff cg loky_env) (fun cpu_count_user =>
-  let aggregate_cpu_count := (Z.min (Z.max os_cpu_count (1)) cpu_count_user) in
+  let aggregate_cpu_count := (Z.max (Z.min os_cpu_count cpu_count_user) (1)) in
   if (negb only_physical_cores) then (Ok (aggregate_cpu_count)) else (Raise RuntimeError (* fell off the end: returns None *))).
